@@ -81,7 +81,10 @@ def check_files(files: Dict[str, str], cyclic: bool, stale_possible: bool, star_
             keys = sorted(k for k in set(d) | set(ref) if d.get(k) != ref.get(k))
             k0 = keys[0]
             sig = 'order-dependent'
-            if stale_possible and all(_is_class_hierarchy_diff(ref.get(k), d.get(k), cyclic) for k in keys):
+            hk = [k for k in keys if _is_class_hierarchy_diff(ref.get(k), d.get(k), cyclic)]
+            # members of a class whose base is resolved or not (e.g. an assignment to an inherited method name is a new
+            # class variable only when the base is unknown) follow from the same hierarchy difference
+            if stale_possible and hk and all(k in hk or any(str(k).startswith(str(h) + '.') for h in hk) for k in keys):
                 sig = STALE
             elif reexport_on_cycle:
                 sig = 'reexport-from-module-on-import-cycle'
